@@ -7,4 +7,4 @@ d=$(mktemp -d /tmp/jenben.XXXXXX); trap 'rm -rf "$d"' EXIT
 rsync -a --exclude .git /repo/ "$d/"
 (cd "$d" && patch -p1 --no-backup-if-mismatch -s < "$patch") || { echo "PATCH-FAILED"; exit 3; }
 (cd "$d" && go build ./... && go test -vet=off -count=1 ./... 2>&1 | grep -v "no test files" | tr '\n' ' '); echo
-JENLINT_REPO="$d" /verif/bin/jenlint keys 2>&1 | grep -v "^discharged\|^info" | grep -v "P-MAPRANGE | (jen.Dict).[A-Za-z]* | range over recv: call invoke\|P-MAPRANGE | (jen.Dict).[A-Za-z]* | range over recv: slice collected across iterations ([A-Za-z]*) is sorted by a key two entries may share" | sed "s#$d/##g" | cut -c1-${CUT:-330} | awk '{k=$1" "$2; c[k]++; if (c[k]<=3) print} END {for (k in c) if (c[k]>3) print "   ... " k " x" c[k]}'
+JENLINT_REPO="$d" /verif/bin/jenlint keys 2>&1 | grep -v "^discharged\|^info" | grep -v "P-MAPRANGE | (jen.Dict).[A-Za-z]* | range over recv: call invoke.render on the range key\|P-MAPRANGE | (jen.Dict).[A-Za-z]* | range over recv: slice collected across iterations ([A-Za-z]*) is sorted by a key two entries may share" | sed "s#$d/##g" | cut -c1-${CUT:-330} | awk '{k=$1" "$2; c[k]++; if (c[k]<=3) print} END {for (k in c) if (c[k]>3) print "   ... " k " x" c[k]}'
